@@ -18,6 +18,42 @@ def encFloats (fs : List Float) : Sexp := encList (fun f => bitsAtom f.toBits) f
 
 def fltB : Dec Float := fun s => (bits s).map Float.ofBits
 
+/-- Encode-then-decode of a generated track; `aText` is the text given to the `igc.A` option. -/
+def rt (aText : Bytes) (fixes : List Sexp) (go : Sexp) : Option Reply := do
+    let fx ← fixes.mapM fun f => match f with
+      | .list [a, b, c, d] => do pure ((← fltB a), (← fltB b), (← fltB c), (← fltB d))
+      | _ => none
+    let text := encode aText fx
+    let m : Sexp := match doParse text (fun _ => none) with
+      | .ok d => .list [.atom "ok", .atom (bytesToHex text), encFloats d.st.coords]
+      | _ => .list [.atom "panic"]
+    -- H records written by the encoder are HFDTEddmmyy: the model needs their regex groups too
+    let look (line : Bytes) : Option HMatch :=
+      if line.take 5 == "HFDTE".toUTF8.toList then some ⟨[68, 84, 69], line.drop 5⟩ else none
+    let m : Sexp := match doParse text look with
+      | .ok d => .list [.atom "ok", .atom (bytesToHex text), encFloats d.st.coords]
+      | _ => m
+    let v : String := match go with
+      | .list [.atom "ok", _, .list cs] =>
+          if cs.length != 5 * fx.length then "FAIL number of fixes changed across encode/decode"
+          else
+            let got := cs.filterMap (fun s => (bits s).bind Exact.ofBits)
+            if got.length != cs.length then "FAIL decoded fix has a non-finite ordinate"
+            else
+              let bad := (List.range fx.length).find? fun i =>
+                let (lng, lat, alt, t) := fx.getD i (0, 0, 0, 0)
+                let r (x : Float) : Rat := (Exact.ofBits x.toBits).getD 0
+                let g (k : Nat) : Rat := got.getD (5 * i + k) 0
+                let res := mkRat 1 60000
+                let altW : Rat := max 0 (min 10000 ((truncToInt alt : Int) : Rat))
+                !(Exact.abs (g 0 - r lng) ≤ res && Exact.abs (g 1 - r lat) ≤ res &&
+                  g 2 == altW && g 4 == altW && g 3 == ((truncToInt t : Int) : Rat))
+              match bad with
+              | some i => s!"FAIL fix {i} not preserved to format resolution (lon/lat within 1/60000 deg, whole second, clamped altitude)"
+              | none => "ok"
+      | _ => "FAIL IGC encode/decode panicked or failed"
+    pure ⟨m.toStr, v⟩
+
 def handle (op : String) (inp go : Sexp) : Option Reply :=
   match op, inp with
   | "C19.dec", .list [data, .list hs] => do
@@ -36,40 +72,10 @@ def handle (op : String) (inp go : Sexp) : Option Reply :=
             else "ok"
         | _ => "FAIL IGC decoding panicked"
       pure ⟨m.toStr, v⟩
-  | "C19.rt", .list fixes => do
-      let fx ← fixes.mapM fun f => match f with
-        | .list [a, b, c, d] => do pure ((← fltB a), (← fltB b), (← fltB c), (← fltB d))
-        | _ => none
-      let text := encode "XXXverif".toUTF8.toList fx
-      let m : Sexp := match doParse text (fun _ => none) with
-        | .ok d => .list [.atom "ok", .atom (bytesToHex text), encFloats d.st.coords]
-        | _ => .list [.atom "panic"]
-      -- H records written by the encoder are HFDTEddmmyy: the model needs their regex groups too
-      let look (line : Bytes) : Option HMatch :=
-        if line.take 5 == "HFDTE".toUTF8.toList then some ⟨[68, 84, 69], line.drop 5⟩ else none
-      let m : Sexp := match doParse text look with
-        | .ok d => .list [.atom "ok", .atom (bytesToHex text), encFloats d.st.coords]
-        | _ => m
-      let v : String := match go with
-        | .list [.atom "ok", _, .list cs] =>
-            if cs.length != 5 * fx.length then "FAIL number of fixes changed across encode/decode"
-            else
-              let got := cs.filterMap (fun s => (bits s).bind Exact.ofBits)
-              if got.length != cs.length then "FAIL decoded fix has a non-finite ordinate"
-              else
-                let bad := (List.range fx.length).find? fun i =>
-                  let (lng, lat, alt, t) := fx.getD i (0, 0, 0, 0)
-                  let r (x : Float) : Rat := (Exact.ofBits x.toBits).getD 0
-                  let g (k : Nat) : Rat := got.getD (5 * i + k) 0
-                  let res := mkRat 1 60000
-                  let altW : Rat := max 0 (min 10000 ((truncToInt alt : Int) : Rat))
-                  !(Exact.abs (g 0 - r lng) ≤ res && Exact.abs (g 1 - r lat) ≤ res &&
-                    g 2 == altW && g 4 == altW && g 3 == ((truncToInt t : Int) : Rat))
-                match bad with
-                | some i => s!"FAIL fix {i} not preserved to format resolution (lon/lat within 1/60000 deg, whole second, clamped altitude)"
-                | none => "ok"
-        | _ => "FAIL IGC encode/decode panicked or failed"
-      pure ⟨m.toStr, v⟩
+  | "C19.rt", .list fixes => rt "XXXverif".toUTF8.toList fixes go
+  | "C19.rta", .list [.atom ah, .list fixes] => do
+      let a ← (if ah == "-" then some [] else hexToBytes? ah)
+      rt a fixes go
   | _, _ => none
 
 end GeomVerif.Driver.C19
